@@ -863,6 +863,7 @@ where
 {
     #[inline(always)]
     fn go<M: Mode>(&self, inp: &mut InputRef<'src, '_, I, E>) -> PResult<M, O> {
+        let start = inp.save();
         let before = inp.cursor();
         // The parser's address is no use as a key: a zero-sized parser, or a parser and its first field, share one
         let key = (I::cursor_location(&before.inner), self.id);
@@ -888,6 +889,26 @@ where
         let old_alt = inp.take_alt();
         let res = self.parser.go::<M>(inp);
         let new_alt = inp.take_alt();
+
+        // A recovery inside this parser reports the error that was pending when it ran, and that includes the alt set
+        // aside above. If anything was reported while an alt was set aside, run again with that alt in place (the
+        // alt for the memo table is the one found without it)
+        if old_alt.is_some()
+            && !inp
+                .errors
+                .secondary_errors_since(start.err_count)
+                .is_empty()
+        {
+            inp.rewind(start);
+            inp.errors.alt = old_alt;
+            let res = self.parser.go::<M>(inp);
+            if res.is_err() {
+                inp.memos.insert(key, new_alt);
+            } else {
+                inp.memos.remove(&key);
+            }
+            return res;
+        }
 
         if res.is_err() {
             inp.memos.insert(key, new_alt.clone());
